@@ -40,7 +40,98 @@ func usesLock(fn ast.Node) bool {
 }
 
 type instr struct {
-	next int
+	next     int
+	mapNames map[string]bool // identifiers (fields, parameters, variables) that hold maps in this package
+	skipped  int
+}
+
+// Known map types from other packages, by their unqualified name.
+var mapTypeNames = map[string]bool{"Header": true, "Values": true, "Params": true, "MIMEHeader": true}
+
+func isMapType(e ast.Expr) bool {
+	switch t := e.(type) {
+	case *ast.MapType:
+		return true
+	case *ast.Ident:
+		return mapTypeNames[t.Name]
+	case *ast.SelectorExpr:
+		return mapTypeNames[t.Sel.Name]
+	case *ast.StarExpr:
+		return isMapType(t.X)
+	}
+	return false
+}
+
+// collectMaps records every name that is declared with a map type in the file: the order in
+// which Go iterates over a map is random, so a yield inside such a loop would make the number
+// of yields (and with it the whole schedule) differ from one execution of the same tape to the
+// next. Loops over these names are left uninstrumented.
+func (in *instr) collectMaps(f *ast.File) {
+	ast.Inspect(f, func(n ast.Node) bool {
+		switch x := n.(type) {
+		case *ast.TypeSpec:
+			if _, ok := x.Type.(*ast.MapType); ok {
+				mapTypeNames[x.Name.Name] = true
+			}
+		case *ast.Field:
+			if isMapType(x.Type) {
+				for _, nm := range x.Names {
+					in.mapNames[nm.Name] = true
+				}
+			}
+		case *ast.ValueSpec:
+			if x.Type != nil && isMapType(x.Type) {
+				for _, nm := range x.Names {
+					in.mapNames[nm.Name] = true
+				}
+			}
+			for i, v := range x.Values {
+				if i < len(x.Names) && isMapValue(v) {
+					in.mapNames[x.Names[i].Name] = true
+				}
+			}
+		case *ast.AssignStmt:
+			for i, v := range x.Rhs {
+				if i < len(x.Lhs) && isMapValue(v) {
+					if id, ok := x.Lhs[i].(*ast.Ident); ok {
+						in.mapNames[id.Name] = true
+					}
+				}
+			}
+		}
+		return true
+	})
+}
+
+func isMapValue(v ast.Expr) bool {
+	switch x := v.(type) {
+	case *ast.CompositeLit:
+		return x.Type != nil && isMapType(x.Type)
+	case *ast.CallExpr:
+		if id, ok := x.Fun.(*ast.Ident); ok && id.Name == "make" && len(x.Args) > 0 {
+			return isMapType(x.Args[0])
+		}
+		if id, ok := x.Fun.(*ast.Ident); ok && mapTypeNames[id.Name] { // conversion Params(x)
+			return true
+		}
+	}
+	return false
+}
+
+// rangesOverMap: conservative — anything that is not plainly a slice/array/string/channel name
+// known not to be a map counts as a map (calls such as URL.Query(), too).
+func (in *instr) rangesOverMap(e ast.Expr) bool {
+	switch x := e.(type) {
+	case *ast.Ident:
+		return in.mapNames[x.Name]
+	case *ast.SelectorExpr:
+		return in.mapNames[x.Sel.Name]
+	case *ast.CallExpr:
+		return true
+	case *ast.ParenExpr:
+		return in.rangesOverMap(x.X)
+	}
+	return false
 }
 
 func (in *instr) call() ast.Stmt {
@@ -76,6 +167,10 @@ func (in *instr) stmt(s ast.Stmt) {
 	case *ast.ForStmt:
 		in.block(x.Body)
 	case *ast.RangeStmt:
+		if in.rangesOverMap(x.X) {
+			in.skipped++
+			return // no yields inside a loop whose iteration order the runtime randomises
+		}
 		in.block(x.Body)
 	case *ast.SwitchStmt:
 		for _, c := range x.Body.List {
@@ -117,8 +212,21 @@ func main() {
 	}
 	repo, out := os.Args[1], os.Args[2]
 	overlay := map[string]string{}
-	in := &instr{}
+	in := &instr{mapNames: map[string]bool{}}
 	sites := 0
+	for _, p := range pkgs { // first pass: names that hold maps, over all packages
+		dir := filepath.Join(repo, p)
+		ents, _ := os.ReadDir(dir)
+		for _, e := range ents {
+			n := e.Name()
+			if e.IsDir() || !strings.HasSuffix(n, ".go") || strings.HasSuffix(n, "_test.go") {
+				continue
+			}
+			if f, err := parser.ParseFile(token.NewFileSet(), filepath.Join(dir, n), nil, 0); err == nil {
+				in.collectMaps(f)
+			}
+		}
+	}
 	for _, p := range pkgs {
 		dir := filepath.Join(repo, p)
 		ents, err := os.ReadDir(dir)
@@ -189,5 +297,5 @@ func main() {
 	overlay[filepath.Join(repo, "simhook_on.go")] = rootHook
 	b, _ := json.MarshalIndent(map[string]any{"Replace": overlay}, "", " ")
 	os.WriteFile(filepath.Join(out, "overlay.json"), b, 0o644)
-	fmt.Printf("autoyield: %d yield sites in %d files\n", sites, len(overlay)-2)
+	fmt.Printf("autoyield: %d yield sites in %d files (%d map-range loops left alone)\n", sites, len(overlay)-2, in.skipped)
 }
